@@ -6,13 +6,13 @@ WT=/tmp/seed/$ID
 cd $WT || exit 9
 git reset -q --hard ; git apply out/mut$N.diff 2>/dev/null || git apply --3way out/mut$N.diff >/dev/null 2>&1 || { echo "[$NAME] APPLY FAILED (does not apply to the current HEAD)"; git reset -q --hard; exit 9; }
 git diff HEAD > /tmp/seed/$NAME.rebased.diff
-/venv/bin/python out/demo$N.py > /tmp/seed/$NAME.demo_mut.log 2>&1; D1=$?
+PYTHONPATH=$WT /venv/bin/python out/demo$N.py > /tmp/seed/$NAME.demo_mut.log 2>&1; D1=$?
 if [ -z "${SKIP_TESTS:-}" ]; then
 /venv/bin/python -m pytest -q -p no:cacheprovider --timeout=900 > /tmp/seed/$NAME.tests.log 2>&1; T=$?
 else T=skipped; fi
 TS=$(grep -E "passed|failed" /tmp/seed/$NAME.tests.log | tail -1)
 git reset -q --hard ; rm -f tests/data/test_multiple.7z
-/venv/bin/python out/demo$N.py > /tmp/seed/$NAME.demo_clean.log 2>&1; D0=$?
+PYTHONPATH=$WT /venv/bin/python out/demo$N.py > /tmp/seed/$NAME.demo_clean.log 2>&1; D0=$?
 echo "[$NAME] demo with mutation: exit $D1 ; tests: rc=$T ($TS) ; demo clean: exit $D0"
 mkdir -p /verif/seeded/$NAME
 cp /tmp/seed/$NAME.rebased.diff /verif/seeded/$NAME/patch.diff; cp out/demo$N.py /verif/seeded/$NAME/demo.py
